@@ -228,9 +228,13 @@ func (m *Manager) authenticateHTTP(req *Request, token string) (string, error) {
 		Transport: tr,
 		// do not follow redirects that turn the POST into a GET without body (301, 302, 303),
 		// otherwise the reply to that GET would be taken as the reply to the authentication request.
-		CheckRedirect: func(req *http.Request, _ []*http.Request) error {
+		CheckRedirect: func(req *http.Request, via []*http.Request) error {
 			if req.Method != http.MethodPost {
 				return http.ErrUseLastResponse
+			}
+			// a custom CheckRedirect replaces the default policy of net/http; keep its limit.
+			if len(via) >= 10 {
+				return fmt.Errorf("stopped after 10 redirects")
 			}
 			return nil
 		},
